@@ -1,5 +1,6 @@
 import TeleportModel.Driver.C20
 import TeleportModel.Model.NoPanic
+import TeleportModel.Model.GovCycle
 import TeleportModel.Driver.Loop
 /- Line protocol of C15 (see harness/c15_test.go for the op language). -/
 namespace TM.Driver.C15
@@ -11,6 +12,9 @@ structure St where
   /-- rvesting BeginBlocker histories (`bb <op>` lines) run through the C20 model: parameter validation + BeginBlocker
       are code that executes outside transaction recovery, so C15 drives them too -/
   bb : TM.Driver.C20.St := TM.Driver.C20.fresh
+  /-- gov life cycle (`gv <op>` lines): the real msg servers + `gov.EndBlocker` / staking `Slash` against `TM.GovCycle` -/
+  g : TM.GovCycle.GSt := {}
+  gseen : List String := []
 
 def fresh : St := {}
 
@@ -249,7 +253,100 @@ def stepO (st : St) (line : String) : Option (St × String) :=
     | _ => none
   | _ => none
 
+/-! gov life-cycle ops -/
+namespace Gv
+open TM.GovCycle
+
+def takeCoins : Nat → List String → Option (Coins × List String)
+  | 0, r => some ([], r)
+  | k+1, d :: a :: r => do
+    let (l, r') ← takeCoins k r
+    pure ((← str? d, ← parseInt? a) :: l, r')
+  | _, _ => none
+
+def stName : PStatus → String
+  | .deposit => "deposit" | .voting => "voting" | .passed => "passed" | .rejected => "rejected" | .failed => "failed"
+
+def stOf (s : GSt) (id : Nat) : String := match s.find id with | some p => stName p.status | none => "-"
+
+def verdict? : String → Option Verdict
+  | "p:ok" => some (.pass .ok) | "p:err" => some (.pass .err) | "p:panic" => some (.pass .panic)
+  | "reject" => some .reject | "burn" => some .burn | _ => none
+
+def takeExt : Nat → List String → Option (List (Nat × Verdict))
+  | 0, [] => some []
+  | k+1, i :: v :: r => do
+    let rest ← takeExt k r
+    pure ((← parseNat? i, ← verdict? v) :: rest)
+  | _, _ => none
+
+def seeAll (seen : List String) (cs : Coins) : List String :=
+  cs.foldl (fun acc c => if acc.contains c.1 then acc else acc ++ [c.1]) seen
+
+def dumpBal (seen : List String) (bal : String → Int) : String :=
+  if seen.isEmpty then "-" else joinWith "," (seen.map (fun d => hex (stringToBytes d) ++ "=" ++ toString (bal d)))
+
+def dumpSt (s : GSt) : String :=
+  if s.props.isEmpty then "-" else joinWith "," (s.props.map (fun p => toString p.id ++ ":" ++ stName p.status))
+
+def sortNat (l : List Nat) : List Nat := l.mergeSort (· ≤ ·)
+
+def stepGv (g : GSt) (seen : List String) (f : List String) : Option (GSt × List String × String) :=
+  match f with
+  | ["reset"] => some ({}, [], "ok")
+  | "submit" :: vb :: who :: k :: r => do
+    let (raw, r') ← takeCoins (← parseNat? k) r
+    match r' with
+    | [hOk, cp] =>
+      let seen := seeAll seen raw
+      if !((← b? vb) && msgCoinsOk raw) then pure (g, seen, "v=err m=- id=- st=-") else
+      match submitExec g (← str? who) raw (← b? hOk) (← b? cp) with
+      | .ok g' => pure (g', seen, s!"v=ok m=ok id={g.nextId} st={stOf g' g.nextId}")
+      | _ => pure (g, seen, "v=ok m=err id=- st=-")
+    | _ => none
+  | "deposit" :: vb :: id :: who :: k :: r => do
+    let (raw, r') ← takeCoins (← parseNat? k) r
+    let id ← parseNat? id
+    match r' with
+    | [cp] =>
+      let seen := seeAll seen raw
+      if !((← b? vb) && msgCoinsOk raw) then pure (g, seen, s!"v=err m=- st={stOf g id}") else
+      match addDeposit g id (← str? who) raw (← b? cp) with
+      | .ok g' => pure (g', seen, s!"v=ok m=ok st={stOf g' id}")
+      | _ => pure (g, seen, s!"v=ok m=err st={stOf g id}")
+    | _ => none
+  | ["vote", vb, id] => do
+    if !(← b? vb) then pure (g, seen, "v=err m=-") else
+    match voteExec g (← parseNat? id) with
+    | .ok _ => pure (g, seen, "v=ok m=ok")
+    | _ => pure (g, seen, "v=ok m=err")
+  | ["advance", n] => do pure ({ g with now := g.now + (← parseNat? n) }, seen, "ok")
+  | op :: k :: r =>
+    if op = "endblock" ∨ op = "appendblock" then do
+      let ext ← takeExt (← parseNat? k) r
+      if sortNat (ext.map (·.1)) ≠ sortNat (dueActive g) then pure (g, seen, "bad-ext") else
+      match endBlock ext g with
+      | .ok g' => pure (g', seen, s!"ok st={dumpSt g'} g={dumpBal seen g'.bal}")
+      | _ => pure (g, seen, "panic")
+    else if op = "slash" then
+      match r with
+      | [nb, bb, bn] => do
+        match slash (← parseInt? k) (← parseInt? nb) (← parseInt? bb) (← parseInt? bn) with
+        | .ok _ => pure (g, seen, "ok")
+        | _ => pure (g, seen, "panic")
+      | _ => none
+    else if op = "setup" then (r.getLast?).map (fun x => (g, seen, x))
+    else none
+  | _ => none
+
+end Gv
+
 def step (st : St) (line : String) : St × String :=
+  if line.startsWith "gv " then
+    match Gv.stepGv st.g st.gseen (modelFields (line.drop 3).toString) with
+    | some (g', seen', o) => ({ st with g := g', gseen := seen' }, o)
+    | none => (st, "bad-op")
+  else
   if line.startsWith "bb " then
     let (b', o) := TM.Driver.C20.step st.bb (line.drop 3).toString
     ({ st with bb := b' }, o)
